@@ -39,6 +39,10 @@ REGISTRY = {
  'C16': dict(level='other', P=[], R=['rtc.battery_C16'],
              explanation='BOUNDED: summary lists exactly the kept features; qualitative rows partition the known values with the label transform outputs; one row per quantitative group with NaN '
                          'in the group it was merged into; summary(f) only rows of f; history holds raw distribution + tested combinations with measure, last viable one = fitted grouping.'),
+ 'C17': dict(level='other', P=[GL_ALL], R=['rtc.c17_edits'],
+             explanation='PROVED: the GroupedList operations update_discretizer is built from (group, append, contains, get_group, replace_group_leader) meet their contracts for all inputs. '
+                         'BOUNDED: seeded sequences of valid edits on fitted objects; after every edit transform maps the discarded rows to the kept label and leaves all other rows grouped as '
+                         'before (replace renames only), and labels / summary / JSON round trip agree with transform.'),
  'C13': dict(level='proof', P=[GL_ALL], R=['rtc.c13_grouped_list'],
              explanation='GroupedList: representation invariant WF established by the three constructors and preserved by every mutating method, exact effect of each '
                          'operation on the abstract view (ordered leader -> members), observers equal to their definition over the view: proved for all inputs by engine P '
